@@ -758,7 +758,7 @@ int asn1_bit_string_from_der_ex(int tag, const uint8_t **bits, size_t *nbits, co
 		error_print();
 		return -1;
 	}
-	if (len < 2) {
+	if (len < 1) {
 		error_print();
 		return -1;
 	}
@@ -766,6 +766,11 @@ int asn1_bit_string_from_der_ex(int tag, const uint8_t **bits, size_t *nbits, co
 	// unused_bits counter
 	unused_bits = **in;
 	if (unused_bits > 7) {
+		error_print();
+		return -1;
+	}
+	// an empty bit string has no unused bits
+	if (len == 1 && unused_bits) {
 		error_print();
 		return -1;
 	}
